@@ -75,8 +75,11 @@ func (c *Chan[T]) Close() {
 	c.closed = true
 }
 
-// Len mirrors len(ch).
-func (c *Chan[T]) Len() int { return len(c.buf) }
+// Len mirrors len(ch); reading it is a scheduling point.
+func (c *Chan[T]) Len() int {
+	SchedPoint("chan-len", c.id, nil)
+	return len(c.buf)
+}
 
 // Cap mirrors cap(ch).
 func (c *Chan[T]) Cap() int { return c.cap }
